@@ -220,6 +220,25 @@ def family_stream(rnd, n, lengths=(1, 2, 3, 5, 6, 7)):
     return out
 
 
+def grid_stream():
+    """deterministic (seed-independent) grid: every encoding x dtype x {no null, None in the middle, NaN first} x {default, duplicated} index, four values"""
+    out = []
+    for fam, pool, dtypes in ENCODINGS:
+        pv = POOLS[pool]
+        base = [pv[i % len(pv)] for i in range(4)]
+        for dtype in dtypes:
+            for nullmode, null in (("none", None), ("middle", "None"), ("first", "nan")):
+                vals = list(base)
+                if null is not None:
+                    if not null_ok(dtype, null, pool):
+                        continue
+                    vals = vals[:2] + [null] + vals[2:] if nullmode == "middle" else [null] + vals
+                for index in ("None", "'dup'"):
+                    out.append({"recipe": series_recipe(vals, dtype, index, "None"), "family": fam, "pool": pool, "dtype": dtype,
+                                "nulls": nullmode, "null": null, "len": len(vals), "index": index})
+    return out
+
+
 def mixed_stream(rnd, n):
     """heterogeneous / adversarial columns"""
     allpools = list(POOLS)
@@ -302,6 +321,8 @@ def special_stream():
         "pd.Series(['2020', '2021'])", "pd.Series(['01', '02'])", "pd.Series(['1_0'])", "pd.Series(['nan', '1.5'])", "pd.Series(['inf'])",
         "pd.Series(['True', 'yes'])", "pd.Series(['nan', 'NaN'])", "pd.Series(['nan'])", "pd.Series(['NaN', None])", "pd.Series(['-nan', 'nan', 'nan'])",
         "pd.Series(['NaT', 'NaT'])", "pd.Series(['inf', '-inf'])", "pd.Series(['nan', 'nan'], dtype=object)", "pd.Series(['nan', '1'])", "pd.Series(['NaT', '2020-01-01'])", "pd.Series([''])", "pd.Series(['', 'a'])", "pd.Series([' '])", "pd.Series(['\\x00'])",
+        "pd.Series([3e9, 4e9, 7.0], dtype='float32')", "pd.Series([40000.0, -3.0], dtype='float16')", "pd.Series([1e10], dtype='Float32')", "pd.Series([3e9, None], dtype='Float32')",
+        "pd.Series([3e9, nan], dtype='float32')", "pd.Series([2.0**31, 1.0], dtype='float32')", "pd.Series([-2.0**31 - 256, 1.0], dtype='float32')",
         "pd.Series([1.0, 2.0**63, 3.0])", "pd.Series([2.0**63])", "pd.Series([-2.0**63, 1.0])", "pd.Series([2.0**53 + 2, 1.0])", "pd.Series([2.0**64, 0.0])",
         "pd.Series(['1', '9223372036854775808', '3'])", "pd.Series(['9223372036854775807'])", "pd.Series(['-9223372036854775809'])",
         "pd.Series([1 + 0j, complex(2.0**63, 0)])", "pd.Series([1.0, 2.0**63], index=['r1', 'r1'], name='amount')",
@@ -396,7 +417,7 @@ def all_streams(rnd, tier, n_fam=None, n_mixed=None):
     n_mixed = n_mixed or (500 if tier == "quick" else 6000)
     fam = family_stream(rnd, n_fam)
     # cheap, targeted streams first: a search that is cut by its budget has then seen every kind of input
-    return (bank_stream() + special_stream() + file_stream() + long_stream(rnd, 40 if tier == "quick" else 600) + fam[:600]
+    return (bank_stream() + special_stream() + file_stream() + grid_stream() + long_stream(rnd, 40 if tier == "quick" else 600) + fam[:600]
             + bx_stream(2, rnd, limit=2500 if tier == "quick" else 25000)
             + fam[600:] + mixed_stream(rnd, n_mixed) + cross_stream(rnd, n_mixed * 2))
 
